@@ -60,7 +60,7 @@ FINGERPRINTS = {
     # Watcher.run_once is not fingerprinted: its body is translated statement by statement
     # (_run_once_program below)
     # second shape: the ISDIR branch also queues the directory itself (proposed fix for C14-D10)
-    "stepup/core/watcher.py:AsyncInotifyWrapper.change_loop": ("e1d6cde9fd574e23", "db0649bb364119ee"),
+    "stepup/core/watcher.py:AsyncInotifyWrapper.change_loop": ("1db8fefdf05cafae", "e1d6cde9fd574e23", "db0649bb364119ee"),  # first: with log-only statements dropped (astutil._DropLogging)
     "stepup/core/watcher.py:AsyncInotifyWrapper.dir_loop": ("71299503f029cf32",),
     "stepup/core/workflow.py:Workflow.change_is_relevant": ("7296039b3c9fd378",),
     "stepup/core/workflow.py:Workflow.relevant_paths_under": ("5b3d4e5ed6bc08c7",),
@@ -68,7 +68,7 @@ FINGERPRINTS = {
     "stepup/core/workflow.py:Workflow.get_file_hashes": ("52974d48de67df62",),
     "stepup/core/workflow.py:Workflow.persist_nglob_matches": ("9194b56c3f705a07",),
     "stepup/core/workflow.py:_relevant_states": ("9facbae08f0b1697",),
-    "stepup/core/startup.py:resume_from_db": ("f73937e0ee9e422b",),
+    "stepup/core/startup.py:resume_from_db": ("6ad066191b0d5512", "f73937e0ee9e422b",),  # first: with log-only statements dropped (astutil._DropLogging)
     "stepup/core/startup.py:reset_interrupted_steps": ("ed62a94f9b3c60bd",),
     "stepup/core/startup.py:rescan_files": ("a64cd5905d5443f5",),
     "stepup/core/startup.py:rescan_nglobs": ("447d45a8dbb23181",),
